@@ -46,6 +46,11 @@ def check(repo: Repo) -> Result:
     conversion_gate(repo, res)
     unit_additive(repo, res)
     no_write_before_refusal(repo, res, a)
+    from rules import c16
+    from rules.common import share
+
+    r8 = res.rule("C01-R8", "a list operand is coerced to one unit only when every element's unit equals the first element's (an element without units counts as the null unit, never as matching)", floor=2)
+    share(res, r8, "C16", lambda t: c16.accessors(repo, t), ["C16-R2"], want=lambda k: k.startswith("coerce-list"), min_keys=2)
     return res
 
 
@@ -383,4 +388,5 @@ MUTANTS = [
     Mutant("twin-reorder-checked", ARR, "unyt_array.__array_ufunc__", "                _preserve_units,\n                _comparison_unit,\n", "                _comparison_unit,\n                _preserve_units,\n", (), benign=True),
     Mutant("entry-by-spelling", ARR, "unyt_array.__array_ufunc__", "if u0 is not u1 and u0 != u1:", "if u0 is not u1 and u0.expr != u1.expr:", ("C01-R2",)),
     Mutant("entry-without-identity-shortcut", ARR, "unyt_array.__array_ufunc__", "if u0 is not u1 and u0 != u1:", "if u0 != u1:", (), benign=True),
+    Mutant("coerce-list-bare-elements-match", ARR, "_coerce_iterable_units", 'ff != getattr(_, "units", NULL_UNIT)', 'ff != getattr(_, "units", ff)', ("C01-R8",)),
 ]
